@@ -298,9 +298,18 @@ impl std::fmt::Debug for RawDebug {
         f.write_str(&self.0)
     }
 }
-/// {"b":bool} | {"u":n} | {"i":n} | {"s":hex} | {"d":hex} | {"f":float} | null (= Empty)
+/// A value whose `Debug` impl panics as soon as it is formatted.
+struct PanicDebug;
+impl std::fmt::Debug for PanicDebug {
+    fn fmt(&self, _: &mut std::fmt::Formatter<'_>) -> std::fmt::Result {
+        panic!("PanicDebug formatted")
+    }
+}
+/// {"b":bool} | {"u":n} | {"i":n} | {"s":hex} | {"d":hex} | {"f":float} | {"p":1} (Debug panics) | null (= Empty)
 fn mk_value(v: &J) -> Box<dyn Value> {
-    if let Some(b) = v.get("b") {
+    if v.get("p").is_some() {
+        Box::new(tracing::field::debug(PanicDebug))
+    } else if let Some(b) = v.get("b") {
         Box::new(b.as_bool().unwrap())
     } else if let Some(u) = v.get("u") {
         Box::new(u.as_u64().unwrap())
@@ -328,23 +337,24 @@ fn field_val(vals: &J, name: &str) -> Box<dyn Value> {
 // ---------------------------------------------------------------------------------------------- worker threads
 type Job = Box<dyn FnOnce() + Send>;
 struct Worker {
-    tx: mpsc::Sender<(Job, mpsc::Sender<()>)>,
+    tx: mpsc::Sender<(Job, mpsc::Sender<bool>)>,
 }
 impl Worker {
     fn new() -> Self {
-        let (tx, rx) = mpsc::channel::<(Job, mpsc::Sender<()>)>();
+        let (tx, rx) = mpsc::channel::<(Job, mpsc::Sender<bool>)>();
         std::thread::spawn(move || {
             for (job, done) in rx {
-                let _ = catch_unwind(AssertUnwindSafe(job));
-                let _ = done.send(());
+                let panicked = catch_unwind(AssertUnwindSafe(job)).is_err();
+                let _ = done.send(panicked);
             }
         });
         Worker { tx }
     }
-    fn run(&self, job: Job) {
+    /// runs the job on the worker thread; true = it panicked (the panic is caught there, as an application would)
+    fn run(&self, job: Job) -> bool {
         let (dtx, drx) = mpsc::channel();
         self.tx.send((job, dtx)).unwrap();
-        drx.recv().unwrap();
+        drx.recv().unwrap()
     }
 }
 
@@ -544,17 +554,13 @@ fn hist_case(c: &J, workers: &[Worker]) -> J {
         });
         plog.drain();
         rlog.drain();
-        if tid == 0 {
-            let _ = catch_unwind(AssertUnwindSafe(job));
-        } else {
-            workers[tid - 1].run(job);
-        }
+        let panicked = if tid == 0 { catch_unwind(AssertUnwindSafe(job)).is_err() } else { workers[tid - 1].run(job) };
         let answers: Vec<bool> = plog.drain().iter().filter_map(|e| e.get("en").and_then(|x| x.as_bool())).collect();
         let rec = rlog.drain();
         let delivered = rec.iter().any(|e| e.get("new").is_some() || e.get("event").is_some());
         let idmap = ids.lock().unwrap();
         let closed: Vec<u64> = rec.iter().filter_map(|e| e.get("close").and_then(|x| x.as_u64())).filter_map(|r| idmap.get(&r).copied()).collect();
-        obs.push(json!({"en": answers.last().copied(), "n_en": answers.len(), "delivered": delivered, "closed": closed}));
+        obs.push(json!({"en": answers.last().copied(), "n_en": answers.len(), "delivered": delivered, "closed": closed, "panicked": panicked}));
     }
     // tidy: drop every remaining span before the dispatcher goes away
     spans.lock().unwrap().clear();
